@@ -334,6 +334,7 @@ func (co *ClipperOffset) doGroupOffset(group *Group) {
 		if cnt == 0 {
 			continue // nothing to offset (offsetOpenPath would index path[0])
 		}
+		co.endType = group.endType // a two-point Joined path below changes it for that path only
 
 		switch cnt {
 		case 1:
